@@ -353,16 +353,16 @@ IterMeaning ==
 (* the code's traversal (both branches, any threshold, word chaining) yields exactly that *)
 IterRefines ==
   [][LET a == last' IN
-       /\ a.op = "iter" => \A thr \in ThrSet : ImplIter(bm[a.h], a, thr) = Reply(a)
-       /\ a.op = "getn" => \A thr \in ThrSet : ImplGetN(bm[a.h], a, thr) = Reply(a)
+       /\ a.op = "iter" => LET r == Reply(a) IN \A thr \in ThrSet : ImplIter(bm[a.h], a, thr) = r
+       /\ a.op = "getn" => LET r == Reply(a) IN \A thr \in ThrSet : ImplGetN(bm[a.h], a, thr) = r
   ]_allvars
 
 (* the same as state invariants (reads do not change the state, so they can be quantified *)
 (* over in place; TLC evaluates invariants in parallel, action properties it does not)    *)
 IterRefinesInv ==
   /\ \A a \in IterActs({1}) : a.pos + Count(bm[a.h], a.n) <= a.len =>
-        \A thr \in ThrSet : ImplIter(bm[a.h], a, thr) = Reply(a)
-  /\ \A a \in GetNActs({1}) : \A thr \in ThrSet : ImplGetN(bm[a.h], a, thr) = Reply(a)
+        LET r == Reply(a) IN \A thr \in ThrSet : ImplIter(bm[a.h], a, thr) = r
+  /\ \A a \in GetNActs({1}) : LET r == Reply(a) IN \A thr \in ThrSet : ImplGetN(bm[a.h], a, thr) = r
 
 View == vars
 
